@@ -764,6 +764,10 @@ class ScipyOptimizeDriver(Driver):
         if meta['equals'] is not None:
             return grad[grad_idx, :]
 
+        # New-style constraints are functions of the constraint value itself.
+        if self.options['optimizer'] in _supports_new_style and _use_new_style:
+            return grad[grad_idx, :]
+
         # Note, scipy defines constraints to be satisfied when positive,
         # which is the opposite of OpenMDAO.
         lower = meta['lower']
